@@ -432,7 +432,9 @@ func engineCodec(cfg config, o *out) {
 			for k := 0; k < n; k++ {
 				g.badUTF8 = k%7 == 6
 				g.big = cfg.thorough()
+				g.unkDeep = k%4 == 1 // unknown records at every nesting level (a child of a type without fields carries only those)
 				v := g.msg(mi, 3, 2+c.r.intn(7))
+				g.unkDeep = false
 				if k%3 == 0 {
 					for j := c.r.intn(3); j >= 0; j-- {
 						v.Unk = append(v.Unk, genUnknownFor(c.r, mi)...)
